@@ -137,7 +137,10 @@ class SymArray(_np.ndarray):
     def tobytes(self, order='C'):
         from . import symio
         bits = {'int16': 16, 'uint16': 16, 'int32': 32, 'uint32': 32, 'int64': 64}.get(getattr(self, '_int_dtype', None), 32)
-        return symio.tobytes(self, bits)
+        src = self
+        if order == 'F' or (order in ('A', 'K') and self.ndim >= 2 and self.flags.f_contiguous and not self.flags.c_contiguous):
+            src = _np.asarray(self, dtype=object).T         # column-major byte order
+        return symio.tobytes(src, bits)
 
     @property
     def nbytes(self):
@@ -360,7 +363,7 @@ def _map1(f, a):
         src = a.reshape(-1)
         for i in range(src.size):
             flat[i] = f(src[i])
-        return out.view(SymArray)
+        return _layout_like(out, (a,)).view(SymArray)
     if isinstance(a, (list, tuple)):
         return _map1(f, asarray(a))
     return _npscalar(f(a))
@@ -386,8 +389,25 @@ def _map2(f, a, b):
         fo, fa, fb = out.reshape(-1), aa.reshape(-1), bb.reshape(-1)
         for i in range(fo.size):
             fo[i] = f(fa[i], fb[i])
-        return out.view(SymArray)
+        return _layout_like(out, (a, b)).view(SymArray)
     return _npscalar(f(a, b))
+
+
+def _f_like(x):
+    """column-major memory layout (transposed views, asfortranarray, flips of those): axis 0 varies fastest"""
+    if not isinstance(x, _np.ndarray) or x.ndim < 2 or x.flags.c_contiguous:
+        return False
+    st = [builtins.abs(v) for v in x.strides]
+    return builtins.all(st[i] <= st[i + 1] for i in range(len(st) - 1)) and st[0] < st[-1]
+
+
+def _layout_like(out, inputs):
+    """numpy's elementwise results keep the memory layout of their array operands (order='K'): column-major operands give a column-major
+    result.  Layout is invisible to indexing, but ravel(order='K'/'A') and tobytes(order='A') depend on it."""
+    arrs = [x for x in inputs if isinstance(x, _np.ndarray) and x.ndim >= 2 and x.shape == out.shape]
+    if arrs and builtins.all(_f_like(x) for x in arrs):
+        return _np.asfortranarray(out)
+    return out
 
 
 def _sx(v):
@@ -1083,7 +1103,7 @@ def astype(a, dtype):
     if isinstance(dtype, _DType):
         if dtype.kind in 'iu':
             if getattr(a, '_int_dtype', None) == dtype.name:
-                return asarray(a).copy()          # already of this integer type
+                return asarray(a).copy(order='K')          # already of this integer type (astype keeps the memory layout)
             res = _map1(lambda v: _cast_int(v, dtype), a)
             if isinstance(res, _np.ndarray):
                 res._int_dtype = dtype.name
